@@ -111,6 +111,14 @@ fn gen_set(rng: &mut Rng) -> Set {
             texts.push(json!({"type":"record","name":"Host","fields":[{"name":"n","type":{"type":"fixed","name":"Nested","size":3}}]}));
             texts.push(json!({"type":"record","name":"Guest","fields":[{"name":"n","type":"Nested"}]}));
         }
+        5 | 6 => {
+            // one simple name in the null namespace AND in a namespace, referred to without qualification from inside
+            // that namespace: the reference means the type of the referrer's own namespace, whatever was parsed first
+            kind = "simple name defined in two namespaces";
+            texts.push(json!({"type":"fixed","name":"Shadow","size":1}));
+            texts.push(json!({"type":"fixed","name":"Shadow","namespace":"sh.ns","size":2}));
+            texts.push(json!({"type":"record","name":"sh.ns.UsesShadow","fields":[{"name":"s","type":"Shadow"},{"name":"t","type":{"type":"array","items":"Shadow"}}]}));
+        }
         4 => {
             kind = "input whose type is a nested named type";
             expect_ok = false;
